@@ -25,7 +25,7 @@ MANIFEST = {
             "notification, registry, closed flag) replayed in lockstep against the real actor system over random trees with terminations, "
             "restarts, re-spawns, watch-before-spawn, spawns from termination handlers and sends in flight, ending with Shutdown. Proved for "
             "every role table that never spawns from an actor's own OnTerminated handler nor under a system address, and every label sequence "
-            "(Kernel/Hierarchy.v, invariant RI/H2..H5 over registry, parent and children tables): C05_hierarchical_partial — in every "
+            "(Kernel/Hierarchy.v, invariant RI/H2..H7 over registry, parent and children tables): C05_hierarchical_partial — in every "
             "reachable state a still-registered actor has a still-registered parent that lists it, so no actor finishes terminating before "
             "any descendant; C05_no_registered_child_of_unregistered_parent_partial. The excluded script behaviour is a real defect, proved "
             "as C05_registry_empty_after_shutdown_refuted (spawn inside the final OnTerminated creates an orphan nobody waits for: open "
